@@ -190,10 +190,11 @@ Section DecT.
     end.
 
   (* the recursive call handed to the generated code: default literals are JSON (populateLocalDefaultValues re-parses the schema's
-     literal with the JSON reader: the only use of [top' = true]), everything else is the tree decoder itself *)
+     literal with NewJsonReader - no exclusions, scopeToIgnore 0: [djmix .. true] = decJ e wildcard ps_empty 0 parseF f true; the
+     only use of [top' = true]), everything else is the tree decoder itself *)
   Definition mixDJ (DT : ty -> jdoc -> tracker -> res (value * tracker)) (f : nat)
       (top' : bool) (t' : ty) (d' : jdoc) (tr' : tracker) : res (value * tracker) :=
-    if top' then decJ e wildcard excl ignore parseF f true t' d' tr' else DT t' d' tr'.
+    if top' then djmix e wildcard excl ignore parseF f true t' d' tr' else DT t' d' tr'.
 
   Definition stepT (DJ : bool -> ty -> jdoc -> tracker -> res (value * tracker))
       (top : bool) (t : ty) (d : jdoc) (tr : tracker) : res (value * tracker) :=
@@ -850,7 +851,7 @@ Section Refines.
     induction fuel as [|f IH]; intros t d c tr rest Hok Hc Hsz; [pose proof (rsize_pos d); lia|].
     rewrite decR_unfold. unfold decT. rewrite decTj_unfold.
     apply (stepR_ref e wildcard excl ignore parseF fl qr
-             (decJ e wildcard excl ignore parseF f) (mixDJ e wildcard excl ignore parseF (decTj' f false) f)
+             (djmix e wildcard excl ignore parseF f) (mixDJ e wildcard excl ignore parseF (decTj' f false) f)
              (decR' f) (fun t0 jd tr0 => eq_refl) (fun x => toks_ok x /\ rsize x <= f)).
     - intros x [Hx Hs] t0 tr0 rest0 Hr0. exact (IH t0 x true tr0 rest0 Hx Hr0 Hs).
     - exact Hok.
